@@ -33,6 +33,74 @@ def noTryList : List Expr → Bool
   | e :: es => noTry e && noTryList es
 end
 
+/-! a handler that only raises: `try: … except X: raise Y` turns no failure into a value -/
+def isRaise : Expr → Bool
+  | .raise _ => true
+  | _ => false
+
+theorem isRaise_iff (b : Expr) : isRaise b = true ↔ ∃ k, b = .raise k := by
+  cases b <;> simp [isRaise]
+
+/-! no handler returns a value (`try` only with a handler that raises): the class `NoCatch` as
+syntax; contains the `try`-free bodies and what `deadExpr` makes of them -/
+mutual
+def noCatch : Expr → Bool
+  | .lit _ => true
+  | .none => true
+  | .param _ => true
+  | .add a b => noCatch a && noCatch b
+  | .sub a b => noCatch a && noCatch b
+  | .mul a b => noCatch a && noCatch b
+  | .lt a b => noCatch a && noCatch b
+  | .ite c a b => noCatch c && noCatch a && noCatch b
+  | .call _ args => noCatchList args
+  | .readN _ => true
+  | .readA _ => true
+  | .raise _ => true
+  | .try_ a _ b => noCatch a && isRaise b
+  | .tryRe _ _ _ => false
+  | .tryFin _ _ => false
+def noCatchList : List Expr → Bool
+  | [] => true
+  | e :: es => noCatch e && noCatchList es
+end
+
+mutual
+theorem noCatch_of_noTry : ∀ e : Expr, noTry e = true → noCatch e = true
+  | .lit _ => by simp [noCatch]
+  | .none => by simp [noCatch]
+  | .param _ => by simp [noCatch]
+  | .add a b => by
+    simp only [noTry, noCatch, Bool.and_eq_true]
+    exact fun h => ⟨noCatch_of_noTry a h.1, noCatch_of_noTry b h.2⟩
+  | .sub a b => by
+    simp only [noTry, noCatch, Bool.and_eq_true]
+    exact fun h => ⟨noCatch_of_noTry a h.1, noCatch_of_noTry b h.2⟩
+  | .mul a b => by
+    simp only [noTry, noCatch, Bool.and_eq_true]
+    exact fun h => ⟨noCatch_of_noTry a h.1, noCatch_of_noTry b h.2⟩
+  | .lt a b => by
+    simp only [noTry, noCatch, Bool.and_eq_true]
+    exact fun h => ⟨noCatch_of_noTry a h.1, noCatch_of_noTry b h.2⟩
+  | .ite c a b => by
+    simp only [noTry, noCatch, Bool.and_eq_true]
+    exact fun h => ⟨⟨noCatch_of_noTry c h.1.1, noCatch_of_noTry a h.1.2⟩, noCatch_of_noTry b h.2⟩
+  | .call _ args => by
+    simp only [noTry, noCatch]
+    exact noCatchList_of_noTry args
+  | .readN _ => by simp [noCatch]
+  | .readA _ => by simp [noCatch]
+  | .raise _ => by simp [noCatch]
+  | .try_ _ _ _ => by simp [noTry]
+  | .tryRe _ _ _ => by simp [noTry]
+  | .tryFin _ _ => by simp [noTry]
+theorem noCatchList_of_noTry : ∀ es : List Expr, noTryList es = true → noCatchList es = true
+  | [] => by simp [noCatchList]
+  | e :: es => by
+    simp only [noTryList, noCatchList, Bool.and_eq_true]
+    exact fun h => ⟨noCatch_of_noTry e h.1, noCatchList_of_noTry es h.2⟩
+end
+
 mutual
 def namesIn (vis : RefId → Bool) : Expr → Bool
   | .lit _ => true
@@ -68,7 +136,7 @@ theorem arith_pw (R : RefId → Prop) (op : Int → Int → Int) (a b : Val) (k 
 mutual
 theorem compile_pw (R : RefId → Prop) (vis : RefId → Bool) (hvis : ∀ r, vis r = true → R r)
     (ar : CellId → Option Nat) (params : List Val) :
-    ∀ (e : Expr) (k : Val → Prog) (h : Bool → Err → Prog), noTry e = true → namesIn vis e = true →
+    ∀ (e : Expr) (k : Val → Prog) (h : Bool → Err → Prog), noCatch e = true → namesIn vis e = true →
       (∀ v, PW R (k v)) → HW R h → PW R (compile ar params e k h)
   | .lit i, k, h, _, _, hk, _ => by simp only [compile]; exact hk _
   | .none, k, h, _, _, hk, _ => by simp only [compile]; exact hk _
@@ -77,34 +145,34 @@ theorem compile_pw (R : RefId → Prop) (vis : RefId → Bool) (hvis : ∀ r, vi
     · exact hk _
     · exact (hh _ _).1
   | .add a b, k, h, ht, hn, hk, hh => by
-    simp only [noTry, namesIn, Bool.and_eq_true] at ht hn
+    simp only [noCatch, namesIn, Bool.and_eq_true] at ht hn
     simp only [compile]
     exact compile_pw R vis hvis ar params a _ h ht.1 hn.1 (fun x => compile_pw R vis hvis ar params b _ h ht.2 hn.2
       (fun y => arith_pw R _ x y k h hk hh) hh) hh
   | .sub a b, k, h, ht, hn, hk, hh => by
-    simp only [noTry, namesIn, Bool.and_eq_true] at ht hn
+    simp only [noCatch, namesIn, Bool.and_eq_true] at ht hn
     simp only [compile]
     exact compile_pw R vis hvis ar params a _ h ht.1 hn.1 (fun x => compile_pw R vis hvis ar params b _ h ht.2 hn.2
       (fun y => arith_pw R _ x y k h hk hh) hh) hh
   | .mul a b, k, h, ht, hn, hk, hh => by
-    simp only [noTry, namesIn, Bool.and_eq_true] at ht hn
+    simp only [noCatch, namesIn, Bool.and_eq_true] at ht hn
     simp only [compile]
     exact compile_pw R vis hvis ar params a _ h ht.1 hn.1 (fun x => compile_pw R vis hvis ar params b _ h ht.2 hn.2
       (fun y => arith_pw R _ x y k h hk hh) hh) hh
   | .lt a b, k, h, ht, hn, hk, hh => by
-    simp only [noTry, namesIn, Bool.and_eq_true] at ht hn
+    simp only [noCatch, namesIn, Bool.and_eq_true] at ht hn
     simp only [compile]
     exact compile_pw R vis hvis ar params a _ h ht.1 hn.1 (fun x => compile_pw R vis hvis ar params b _ h ht.2 hn.2
       (fun y => arith_pw R _ x y k h hk hh) hh) hh
   | .ite c a b, k, h, ht, hn, hk, hh => by
-    simp only [noTry, namesIn, Bool.and_eq_true] at ht hn
+    simp only [noCatch, namesIn, Bool.and_eq_true] at ht hn
     simp only [compile]
     refine compile_pw R vis hvis ar params c _ h ht.1.1 hn.1.1 (fun x => ?_) hh
     split
     · exact compile_pw R vis hvis ar params a k h ht.1.2 hn.1.2 hk hh
     · exact compile_pw R vis hvis ar params b k h ht.2 hn.2 hk hh
   | .call c args, k, h, ht, hn, hk, hh => by
-    simp only [noTry, namesIn] at ht hn
+    simp only [noCatch, namesIn] at ht hn
     simp only [compile]
     split
     · exact (hh _ _).1
@@ -150,16 +218,26 @@ theorem compile_pw (R : RefId → Prop) (vis : RefId → Bool) (hvis : ∀ r, vi
       | some v => exact (hk v).2
       | none => exact (hh _ _).1.2
   | .raise e, k, h, _, _, _, hh => by simp only [compile]; exact (hh _ _).1
-  | .try_ a c b, k, h, ht, _, _, _ => by simp [noTry] at ht
-  | .tryRe a c b, k, h, ht, _, _, _ => by simp [noTry] at ht
-  | .tryFin a b, k, h, ht, _, _, _ => by simp [noTry] at ht
+  | .try_ a c b, k, h, ht, hn, hk, hh => by
+    simp only [noCatch, namesIn, Bool.and_eq_true] at ht hn
+    obtain ⟨k', rfl⟩ := (isRaise_iff b).mp ht.2
+    simp only [compile]
+    refine compile_pw R vis hvis ar params a k _ ht.1 hn.1 hk ?_
+    intro x e
+    show PW R (if c.catches e = true then h true (.user k') else h x e) ∧
+      Fails (if c.catches e = true then h true (.user k') else h x e)
+    split
+    · exact hh _ _
+    · exact hh _ _
+  | .tryRe a c b, k, h, ht, _, _, _ => by simp [noCatch] at ht
+  | .tryFin a b, k, h, ht, _, _, _ => by simp [noCatch] at ht
 theorem compileArgs_pw (R : RefId → Prop) (vis : RefId → Bool) (hvis : ∀ r, vis r = true → R r)
     (ar : CellId → Option Nat) (params : List Val) :
-    ∀ (es : List Expr) (k : List Val → Prog) (h : Bool → Err → Prog), noTryList es = true →
+    ∀ (es : List Expr) (k : List Val → Prog) (h : Bool → Err → Prog), noCatchList es = true →
       namesInList vis es = true → (∀ vs, PW R (k vs)) → HW R h → PW R (compileArgs ar params es k h)
   | [], k, h, _, _, hk, _ => by simp only [compileArgs]; exact hk _
   | e :: es, k, h, ht, hn, hk, hh => by
-    simp only [noTryList, namesInList, Bool.and_eq_true] at ht hn
+    simp only [noCatchList, namesInList, Bool.and_eq_true] at ht hn
     simp only [compileArgs]
     exact compile_pw R vis hvis ar params e _ h ht.1 hn.1
       (fun v => compileArgs_pw R vis hvis ar params es _ h ht.2 hn.2 (fun vs => hk _) hh) hh
@@ -215,8 +293,123 @@ theorem scopes_facts (vis : RefId → Bool) (i : CellId) : ∀ (es : List Expr),
     simp [scopeExprs, namesInList, noTryList, callsBelowIdList, h1, h2]
 end
 
+/-! `scopeExpr` keeps the class `noCatch` -/
+mutual
+theorem scope_noCatch (vis : RefId → Bool) : ∀ (e : Expr), noCatch e = true → noCatch (scopeExpr vis e) = true
+  | .lit _ => by simp [scopeExpr, noCatch]
+  | .none => by simp [scopeExpr, noCatch]
+  | .param _ => by simp [scopeExpr, noCatch]
+  | .add a b => by
+    simp only [scopeExpr, noCatch, Bool.and_eq_true]
+    exact fun h => ⟨scope_noCatch vis a h.1, scope_noCatch vis b h.2⟩
+  | .sub a b => by
+    simp only [scopeExpr, noCatch, Bool.and_eq_true]
+    exact fun h => ⟨scope_noCatch vis a h.1, scope_noCatch vis b h.2⟩
+  | .mul a b => by
+    simp only [scopeExpr, noCatch, Bool.and_eq_true]
+    exact fun h => ⟨scope_noCatch vis a h.1, scope_noCatch vis b h.2⟩
+  | .lt a b => by
+    simp only [scopeExpr, noCatch, Bool.and_eq_true]
+    exact fun h => ⟨scope_noCatch vis a h.1, scope_noCatch vis b h.2⟩
+  | .ite c a b => by
+    simp only [scopeExpr, noCatch, Bool.and_eq_true]
+    exact fun h => ⟨⟨scope_noCatch vis c h.1.1, scope_noCatch vis a h.1.2⟩, scope_noCatch vis b h.2⟩
+  | .call _ args => by
+    simp only [scopeExpr, noCatch]
+    exact scopes_noCatch vis args
+  | .readN r => by
+    simp only [scopeExpr]
+    split <;> simp [noCatch]
+  | .readA _ => by simp [scopeExpr, noCatch]
+  | .raise _ => by simp [scopeExpr, noCatch]
+  | .try_ a c b => by
+    simp only [scopeExpr, noCatch, Bool.and_eq_true]
+    intro h
+    obtain ⟨k, rfl⟩ := (isRaise_iff b).mp h.2
+    exact ⟨scope_noCatch vis a h.1, by simp [scopeExpr, isRaise]⟩
+  | .tryRe _ _ _ => by simp [noCatch]
+  | .tryFin _ _ => by simp [noCatch]
+theorem scopes_noCatch (vis : RefId → Bool) : ∀ (es : List Expr),
+    noCatchList es = true → noCatchList (scopeExprs vis es) = true
+  | [] => by simp [scopeExprs, noCatchList]
+  | e :: es => by
+    simp only [scopeExprs, noCatchList, Bool.and_eq_true]
+    exact fun h => ⟨scope_noCatch vis e h.1, scopes_noCatch vis es h.2⟩
+end
+
+/-! `deadExpr` keeps the classes: it introduces no read, no handler that returns, no call of a
+higher cells -/
+mutual
+theorem dead_facts (dead : CellId → Option Bool) (vis : RefId → Bool) (i : CellId) : ∀ (e : Expr),
+    (namesIn vis e = true → namesIn vis (deadExpr dead e) = true) ∧
+    (noCatch e = true → noCatch (deadExpr dead e) = true) ∧
+    (callsBelowId i e = true → callsBelowId i (deadExpr dead e) = true)
+  | .lit _ => by simp [deadExpr]
+  | .none => by simp [deadExpr]
+  | .param _ => by simp [deadExpr]
+  | .add a b => by
+    have ha := dead_facts dead vis i a; have hb := dead_facts dead vis i b
+    simp only [deadExpr, namesIn, noCatch, callsBelowId, Bool.and_eq_true]
+    exact ⟨fun h => ⟨ha.1 h.1, hb.1 h.2⟩, fun h => ⟨ha.2.1 h.1, hb.2.1 h.2⟩, fun h => ⟨ha.2.2 h.1, hb.2.2 h.2⟩⟩
+  | .sub a b => by
+    have ha := dead_facts dead vis i a; have hb := dead_facts dead vis i b
+    simp only [deadExpr, namesIn, noCatch, callsBelowId, Bool.and_eq_true]
+    exact ⟨fun h => ⟨ha.1 h.1, hb.1 h.2⟩, fun h => ⟨ha.2.1 h.1, hb.2.1 h.2⟩, fun h => ⟨ha.2.2 h.1, hb.2.2 h.2⟩⟩
+  | .mul a b => by
+    have ha := dead_facts dead vis i a; have hb := dead_facts dead vis i b
+    simp only [deadExpr, namesIn, noCatch, callsBelowId, Bool.and_eq_true]
+    exact ⟨fun h => ⟨ha.1 h.1, hb.1 h.2⟩, fun h => ⟨ha.2.1 h.1, hb.2.1 h.2⟩, fun h => ⟨ha.2.2 h.1, hb.2.2 h.2⟩⟩
+  | .lt a b => by
+    have ha := dead_facts dead vis i a; have hb := dead_facts dead vis i b
+    simp only [deadExpr, namesIn, noCatch, callsBelowId, Bool.and_eq_true]
+    exact ⟨fun h => ⟨ha.1 h.1, hb.1 h.2⟩, fun h => ⟨ha.2.1 h.1, hb.2.1 h.2⟩, fun h => ⟨ha.2.2 h.1, hb.2.2 h.2⟩⟩
+  | .ite c a b => by
+    have hc := dead_facts dead vis i c; have ha := dead_facts dead vis i a; have hb := dead_facts dead vis i b
+    simp only [deadExpr, namesIn, noCatch, callsBelowId, Bool.and_eq_true]
+    exact ⟨fun h => ⟨⟨hc.1 h.1.1, ha.1 h.1.2⟩, hb.1 h.2⟩, fun h => ⟨⟨hc.2.1 h.1.1, ha.2.1 h.1.2⟩, hb.2.1 h.2⟩,
+      fun h => ⟨⟨hc.2.2 h.1.1, ha.2.2 h.1.2⟩, hb.2.2 h.2⟩⟩
+  | .call c args => by
+    have h := deads_facts dead vis i args
+    simp only [deadExpr]
+    split
+    · simp only [namesIn, noCatch, callsBelowId, Bool.and_eq_true, decide_eq_true_eq]
+      exact ⟨h.1, h.2.1, fun hh => ⟨hh.1, h.2.2 hh.2⟩⟩
+    · simp only [namesIn, noCatch, callsBelowId, namesInList, noCatchList, callsBelowIdList, Bool.and_eq_true,
+        decide_eq_true_eq]
+      exact ⟨fun _ => trivial, fun _ => trivial, fun hh => ⟨hh.1, trivial⟩⟩
+    · simp only [namesIn, noCatch, callsBelowId, namesInList, noCatchList, callsBelowIdList, isRaise,
+        Bool.and_eq_true, decide_eq_true_eq]
+      exact ⟨fun _ => ⟨trivial, trivial⟩, fun _ => ⟨trivial, trivial⟩, fun hh => ⟨⟨hh.1, trivial⟩, trivial⟩⟩
+  | .readN _ => by simp [deadExpr]
+  | .readA _ => by simp [deadExpr]
+  | .raise _ => by simp [deadExpr]
+  | .try_ a c b => by
+    have ha := dead_facts dead vis i a; have hb := dead_facts dead vis i b
+    simp only [deadExpr, namesIn, noCatch, callsBelowId, Bool.and_eq_true]
+    refine ⟨fun h => ⟨ha.1 h.1, hb.1 h.2⟩, fun h => ⟨ha.2.1 h.1, ?_⟩, fun h => ⟨ha.2.2 h.1, hb.2.2 h.2⟩⟩
+    obtain ⟨k, rfl⟩ := (isRaise_iff b).mp h.2
+    simp [deadExpr, isRaise]
+  | .tryRe a c b => by
+    have ha := dead_facts dead vis i a; have hb := dead_facts dead vis i b
+    simp only [deadExpr, namesIn, noCatch, callsBelowId, Bool.and_eq_true]
+    exact ⟨fun h => ⟨ha.1 h.1, hb.1 h.2⟩, fun h => h, fun h => ⟨ha.2.2 h.1, hb.2.2 h.2⟩⟩
+  | .tryFin a b => by
+    have ha := dead_facts dead vis i a; have hb := dead_facts dead vis i b
+    simp only [deadExpr, namesIn, noCatch, callsBelowId, Bool.and_eq_true]
+    exact ⟨fun h => ⟨ha.1 h.1, hb.1 h.2⟩, fun h => h, fun h => ⟨ha.2.2 h.1, hb.2.2 h.2⟩⟩
+theorem deads_facts (dead : CellId → Option Bool) (vis : RefId → Bool) (i : CellId) : ∀ (es : List Expr),
+    (namesInList vis es = true → namesInList vis (deadExprs dead es) = true) ∧
+    (noCatchList es = true → noCatchList (deadExprs dead es) = true) ∧
+    (callsBelowIdList i es = true → callsBelowIdList i (deadExprs dead es) = true)
+  | [] => by simp [deadExprs]
+  | e :: es => by
+    have h1 := dead_facts dead vis i e; have h2 := deads_facts dead vis i es
+    simp only [deadExprs, namesInList, noCatchList, callsBelowIdList, Bool.and_eq_true]
+    exact ⟨fun h => ⟨h1.1 h.1, h2.1 h.2⟩, fun h => ⟨h1.2.1 h.1, h2.2.1 h.2⟩, fun h => ⟨h1.2.2 h.1, h2.2.2 h.2⟩⟩
+end
+
 theorem formulaOf_pw (R : RefId → Prop) (vis : RefId → Bool) (hvis : ∀ r, vis r = true → R r)
-    (ar : CellId → Option Nat) (e : Expr) (key : Key) (ht : noTry e = true) (hn : namesIn vis e = true) :
+    (ar : CellId → Option Nat) (e : Expr) (key : Key) (ht : noCatch e = true) (hn : namesIn vis e = true) :
     NoCatch (formulaOf ar e key) ∧ NameReadsIn R (formulaOf ar e key) := by
   unfold formulaOf
   refine compile_pw R vis hvis ar key e _ _ ht hn (fun v => ⟨trivial, trivial⟩) ?_
